@@ -87,6 +87,7 @@ type storageAnalysis struct {
 	fails  []string
 	viol   []string // definite disagreements found while extracting (e.g. a cached size that a construction site does not set)
 	method *ast.FuncDecl
+	depth  int
 }
 
 func (s *storageAnalysis) fail(format string, args ...any) {
@@ -115,6 +116,21 @@ func (s *storageAnalysis) atomOfContainer(e ast.Expr) (string, bool) {
 	e = ast.Unparen(e)
 	if id, ok := e.(*ast.Ident); ok && s.info.ObjectOf(id) == s.recv {
 		return "SELF", true
+	}
+	// a private accessor of the receiver: f.keys() with `func (f T) keys() []string { return f.mff.keys }`
+	if call, ok := e.(*ast.CallExpr); ok && len(call.Args) == 0 && s.depth < 2 {
+		if fs, ok := ast.Unparen(call.Fun).(*ast.SelectorExpr); ok {
+			if id, ok := ast.Unparen(fs.X).(*ast.Ident); ok && s.info.ObjectOf(id) == s.recv {
+				if cal := Callee(s.info, call); cal != nil {
+					if fd := findFuncDecl(s.pkg, cal); fd != nil && fd.Body != nil && len(fd.Body.List) == 1 && fd.Recv != nil && len(fd.Recv.List[0].Names) == 1 {
+						if ret, ok := fd.Body.List[0].(*ast.ReturnStmt); ok && len(ret.Results) == 1 {
+							sub := &storageAnalysis{c: s.c, pkg: s.pkg, info: s.info, recv: s.info.Defs[fd.Recv.List[0].Names[0]], method: fd, depth: s.depth + 1}
+							return sub.atomOfContainer(ret.Results[0])
+						}
+					}
+				}
+			}
+		}
 	}
 	// field chain rooted in the receiver
 	root := rootIdent(e)
@@ -233,6 +249,23 @@ func (s *storageAnalysis) atomOfLookup(e ast.Expr) (string, bool) {
 	case *ast.CallExpr:
 		if sel, ok := ast.Unparen(t.Fun).(*ast.SelectorExpr); ok {
 			if sel.Sel.Name == "Get" {
+				// the receiver's own Get: the lookup is whatever Get itself looks at (one atom only)
+				if id, ok := ast.Unparen(sel.X).(*ast.Ident); ok && s.info.ObjectOf(id) == s.recv && s.depth < 2 {
+					if cal := Callee(s.info, t); cal != nil {
+						if fd := findFuncDecl(s.pkg, cal); fd != nil && fd.Body != nil && fd.Recv != nil && len(fd.Recv.List[0].Names) == 1 && fd != s.method {
+							sub := &storageAnalysis{c: s.c, pkg: s.pkg, info: s.info, recv: s.info.Defs[fd.Recv.List[0].Names[0]], depth: s.depth + 1}
+							dom := sub.getDomain(fd)
+							if len(sub.fails) == 0 && len(dom) == 1 && len(dom[0]) == 1 {
+								for a, v := range dom[0] {
+									if v {
+										return a, true
+									}
+								}
+							}
+							return "", false
+						}
+					}
+				}
 				return s.atomOfContainer(sel.X)
 			}
 			if _, isSig := s.info.TypeOf(sel).Underlying().(*types.Signature); isSig {
@@ -255,6 +288,12 @@ func (s *storageAnalysis) atomOfKeyCompare(be *ast.BinaryExpr) (string, bool) {
 			return "CONST:" + constant.StringVal(tv.Value), true
 		}
 		if sel, ok := side.(*ast.SelectorExpr); ok {
+			// element of the receiver addressed by index: l[i].key == key
+			if ix, ok := ast.Unparen(sel.X).(*ast.IndexExpr); ok {
+				if a, ok := s.atomOfContainer(ix.X); ok {
+					return a, true
+				}
+			}
 			if id, ok := ast.Unparen(sel.X).(*ast.Ident); ok {
 				if s.info.ObjectOf(id) == s.recv {
 					return "KEY:" + sel.Sel.Name, true
@@ -749,22 +788,48 @@ func ruleR132(c *Ctx) {
 	}
 	info := vp.TypesInfo
 	n := 0
+	// a wrapper literal or a call of a private constructor of one (newAppendMap(...))
+	wrapperKind := func(x ast.Node) (isAppend, isMerge bool) {
+		var t types.Type
+		switch y := x.(type) {
+		case *ast.CompositeLit:
+			// the literal of a constructor is checked at the constructor's call sites
+			if fd, ok := c.EnclosingFunc(y).(*ast.FuncDecl); ok && len(fd.Body.List) == 1 {
+				if r, ok := fd.Body.List[0].(*ast.ReturnStmt); ok && len(r.Results) == 1 {
+					e := ast.Unparen(r.Results[0])
+					if u, ok := e.(*ast.UnaryExpr); ok && u.Op == token.AND {
+						e = ast.Unparen(u.X)
+					}
+					if e == ast.Expr(y) && !fd.Name.IsExported() {
+						return false, false
+					}
+				}
+			}
+			t = info.TypeOf(y)
+		case *ast.CallExpr:
+			if cl, _ := c.ctorLiteral(info, y); cl != nil {
+				if cal := Callee(info, y); cal != nil && !cal.Exported() {
+					t = info.TypeOf(cl)
+				}
+			}
+		}
+		if t == nil {
+			return false, false
+		}
+		return isNamed(t, modPath+"/value", "AppendMap"), isNamed(t, modPath+"/value", "MergeMap")
+	}
 	for _, f := range vp.Syntax {
 		ast.Inspect(f, func(x ast.Node) bool {
-			cl, ok := x.(*ast.CompositeLit)
-			if !ok {
-				return true
-			}
-			isAppend := isNamed(info.TypeOf(cl), modPath+"/value", "AppendMap")
-			isMerge := isNamed(info.TypeOf(cl), modPath+"/value", "MergeMap")
+			isAppend, isMerge := wrapperKind(x)
 			if !isAppend && !isMerge {
 				return true
 			}
+			cl := x
 			fn := c.EnclosingFunc(cl)
 			n++
 			key := fmt.Sprintf("%s#%s-literal[%d]", c.FuncName(cl)+litSuffix(c, fn), map[bool]string{true: "AppendMap", false: "MergeMap"}[isAppend], ordinalIn(fn, cl, func(y ast.Node) bool {
-				c2, ok := y.(*ast.CompositeLit)
-				return ok && (isNamed(info.TypeOf(c2), modPath+"/value", "AppendMap") || isNamed(info.TypeOf(c2), modPath+"/value", "MergeMap"))
+				a, m := wrapperKind(y)
+				return a || m
 			}))
 			// guarded by the negative outcome of a presence test
 			guarded := false
